@@ -614,7 +614,9 @@ fn r_svc(s: &str) -> Option<u16> {
         return None; // those are displayed differently
     }
     match tail {
-        ">" => Some(v),
+        // `_A` is the documented explicit anycast suffix of service addresses (`CS_A`, `DS_A`,
+        // `Wildcard_A` in the constants' docs); it is accepted on the numeric form as on the names.
+        ">" | ">_A" => Some(v),
         ">_M" => Some(v | 0x8000),
         _ => None,
     }
